@@ -397,6 +397,9 @@ func (a *agg) add(r *Result) {
 		a.evals++
 	}
 	a.outcomes[r.Outcome]++
+	if r.Alt {
+		a.probes["ran_on_the_alternative_build"]++
+	}
 	for k, v := range r.Fired {
 		a.fired[k] += v
 	}
